@@ -142,7 +142,25 @@ def rule_accum(ctx, py):
     ctx.check(got == {"self._substrates": "parse_side(sides[0])", "self._products": "parse_side(sides[1])"}, R, f,
               f._qual, "left of '->' are the reactants, right the products", "", "sides swapped: %s" % got)
     ctx.check("len(sides) != 2" in pyfe.src(f), R, f, f._qual, "exactly one '->' required", "", "")
-    ctx.floor(R, 3)
+    # tokenisation: the equation is cut at '->' and '+', a term at any run of whitespace (the bare str.split()); a split on an
+    # explicit blank keeps empty tokens for repeated blanks and does not cut at a tab
+    splits = [c for c in ast.walk(f) if isinstance(c, ast.Call) and isinstance(c.func, ast.Attribute) and
+              c.func.attr in ("split", "rsplit", "partition", "rpartition")]
+    ctx.need(len(splits) >= 3, R, "_fromstring: the three tokenisation steps ('->', '+', blanks) are not all found")
+    seps = []
+    for c in splits:
+        sep = c.args[0] if c.args else next((k.value for k in c.keywords if k.arg == "sep"), None)
+        sv = sep.value if isinstance(sep, ast.Constant) else ("<none>" if sep is None else "<expr>")
+        if isinstance(sep, ast.Constant) and sep.value is None:
+            sv = "<none>"
+        seps.append(sv)
+        ctx.check(c.func.attr == "split" and sv in ("->", "+", "<none>") and len(c.args) + len(c.keywords) <= 1, R, c, f._qual,
+                  "%s" % pyfe.src(c)[:60], "cut at '->', at '+', or at any whitespace",
+                  "a term is cut with `%s`: repeated blanks or a tab between a coefficient and its label are not treated as "
+                  "one separator, the equation is rejected or the coefficient becomes part of the label" % pyfe.src(c)[:50])
+    ctx.check(sorted(set(seps) & {"->", "+", "<none>"}) == sorted({"->", "+", "<none>"}), R, f, f._qual,
+              "separators used: %s" % sorted(set(seps)), "'->' for the sides, '+' for the terms, whitespace inside a term", "")
+    ctx.floor(R, 7)
 
 
 def rule_matrix(ctx, py):
@@ -232,4 +250,6 @@ def run(ctx):
     for c in ("Species", "Reaction"):
         g = py.fn("rdnetwork.%s._set_label" % c)
         ctx.check("assert_string_is_a_valid_label(label)" in pyfe.src(g), "C19.LABEL", g, g._qual, "label validated", "", "")
+    from .. import truth
+    truth.rule(ctx, "C19.TRUTH", ctx.py, ["rdnetwork"], floor=20)
     ctx.assume("parsing of arbitrary equations and the print-parse round trip are not decided")
